@@ -99,7 +99,11 @@ def run(prog: Program, rep, tier: str) -> None:
     rep.assumptions += ["params.rho > 0 (asserted by newton_method/step_solver before every step)",
                         "asserts are enabled (a failing `assert next_rho > self.rho` aborts instead of decreasing)"]
     base = prog.cls(PS)
-    strategies = [c for c in prog.all_subclasses(base, include_self=False)]
+    # intermediate template classes that did not exist on the pinned tree (a shared `update` skeleton with a hook per policy) are
+    # analysed through their concrete subclasses, each of which reads the skeleton with ITS hook expanded
+    from ..inline import known_functions
+    known_cls = {q.rsplit(".", 1)[0] for q in known_functions()}
+    strategies = [c for c in prog.all_subclasses(base, include_self=False) if not (c.subclasses and c.qualname not in known_cls)]
     concrete = [c for c in strategies if c.subclasses == [] or True]
     n_stores = 0
     for c in strategies:
